@@ -77,6 +77,10 @@ type Cfg struct {
 	DLQ          *simsink.Config `json:"dlq,omitempty"`
 	QuietBound   time.Duration   `json:"quiet_bound"`
 	StopAt       time.Duration   `json:"stop_at,omitempty"` // >0: Pipeline.Stop is called at this simulated instant
+	// Trickle > 0: the "many streams in mid multi-line" profile. The first Trickle sources keep a join run open with a
+	// continuation line every third of the event time-out (their processors stay blocked on them, legitimately); the
+	// remaining sources send one plain line each, which must be attended to although every processor is busy
+	Trickle int `json:"trickle,omitempty"`
 }
 
 func (c *Cfg) SimCfg() *simrt.Config { return &c.Sim }
@@ -250,7 +254,48 @@ func (h *H) Gen(rng *rand.Rand, tier, prop string) core.Cfg {
 	}
 	c.Sim.QuietAt = 20 * time.Second // faults stop; the verdict is taken in the quiet phase
 	c.QuietBound = 120 * time.Second
+	if prop == "C04" && core.Chance(rng, 0.06) {
+		trickleProfile(rng, c)
+	}
 	return c
+}
+
+// trickleProfile replaces the generated workload (see Cfg.Trickle).
+func trickleProfile(rng *rand.Rand, c *Cfg) {
+	c.Sim.Procs = core.Pick(rng, 1, 2)
+	c.Sim.Faults = map[string]float64{}
+	c.Sim.PCT, c.Sim.StallMax = 0, 0
+	c.SingleProc, c.StopAt, c.DLQ = false, 0, nil
+	c.Pool, c.Capacity = "std", 64
+	c.Actions = []ActionCfg{{Kind: "join"}}
+	c.EventTimeout = core.Pick(rng, 600*time.Millisecond, 1500*time.Millisecond)
+	c.Sink = simsink.Config{Name: "main", Workers: 2, Count: 4, Flush: 20 * time.Millisecond, Retry: -1, Retention: time.Millisecond, Multiplier: 2}
+	procs := 2 * c.Sim.Procs // the pipeline starts with GOMAXPROCS*2 processors and doubles them when all are busy
+	c.Trickle = 2*procs + core.Between(rng, 0, 2)
+	plain := core.Between(rng, 1, 3)
+	c.Readers = nil
+	id := 0
+	gap := c.EventTimeout / 3
+	rounds := int(6 * time.Second / gap)
+	for s := 1; s <= c.Trickle; s++ {
+		var ls []Line
+		id++
+		ls = append(ls, Line{ID: id, Source: s, Stream: "a", Msg: "S" + strconv.Itoa(id), Pause: time.Duration(s) * time.Millisecond})
+		for k := 0; k < rounds; k++ {
+			id++
+			ls = append(ls, Line{ID: id, Source: s, Stream: "a", Msg: "C" + strconv.Itoa(id), Pause: gap})
+		}
+		c.Readers = append(c.Readers, ls)
+	}
+	for s := c.Trickle + 1; s <= c.Trickle+plain; s++ {
+		id++
+		c.Readers = append(c.Readers, []Line{{ID: id, Source: s, Stream: "a", Msg: "P" + strconv.Itoa(id), Pause: core.DurBetween(rng, 300*time.Millisecond, time.Second)}})
+	}
+	for i := range c.Readers {
+		for j := range c.Readers[i] {
+			c.Readers[i][j].Dirs = []string{""}
+		}
+	}
 }
 
 func (h *H) Shrink(cc core.Cfg) []core.Cfg {
@@ -1108,6 +1153,27 @@ func (r *run) evaluate() {
 	deadOutput := cfg.Sink.Retry < 0 && cfg.Sink.FailFirst > 0
 	if deadOutput || r.stopped {
 		return // a stopped pipeline finalizes nothing any more: only the online (safety) monitors apply
+	}
+	if cfg.Trickle > 0 {
+		// the plain lines of the other sources must have been attended to while the trickling streams kept every
+		// initial processor blocked: "no stream with pending events unattended / blocked behind a multi-line action"
+		for _, x := range r.all {
+			if x.line.Source <= cfg.Trickle || !x.inRet {
+				continue
+			}
+			late := len(x.commitT) == 0
+			if !late && x.commitT[0]-x.inCallT > 3*time.Second {
+				late = true
+			}
+			if late {
+				when := "never"
+				if len(x.commitT) > 0 {
+					when = (x.commitT[0] - x.inCallT).String() + " later"
+				}
+				r.viol("C04", "stream-unattended-while-others-are-in-mid-multi-line", "id %d (source %d) was accepted at %v and committed %s, while %d other sources kept a join run open with a line every %v (event time-out %v, %d initial processors): its stream had no processor", x.line.ID, x.line.Source, x.inCallT, when, cfg.Trickle, cfg.EventTimeout/3, cfg.EventTimeout, 2*cfg.Sim.Procs)
+				break
+			}
+		}
 	}
 	allFinal := true
 	// readers
